@@ -367,9 +367,9 @@ def tasks_for(tier):
     out += [('exh', (1, 0, 1), base), ('exh', (2, 0, 1), base + 1)]
     nparts = 8
     out += [('exh', (3, p, nparts), base + 2 + p) for p in range(nparts)]
-    nr = 12 if tier == 'quick' else 120
+    nr = 12 if tier == 'quick' else 300
     out += [('rnd', 5 if tier == 'quick' else 6, base + 100 + i) for i in range(nr)]
-    out += [('compl', base + 500 + i) for i in range(8 if tier == 'quick' else 80)]
+    out += [('compl', base + 500 + i) for i in range(8 if tier == 'quick' else 200)]
     return out
 
 
